@@ -24,7 +24,12 @@ lazy_static! {
 pub fn eval_int(expression: Pairs<Rule>) -> i64 {
     PRATT_PARSER
         .map_primary(|primary| match primary.as_rule() {
-            Rule::num => primary.as_str().parse::<i64>().unwrap(),
+            Rule::num => {
+                let text = primary.as_str();
+                // a literal outside the i64 range saturates, like `/ 0` below
+                text.parse::<i64>()
+                    .unwrap_or_else(|_| text.parse::<f64>().map_or(0, |x| x as i64))
+            }
             Rule::expr => eval_int(primary.into_inner()),
             _ => unreachable!(),
         })
@@ -39,7 +44,7 @@ pub fn eval_int(expression: Pairs<Rule>) -> i64 {
                     (W(lhs) / W(rhs)).0
                 }
             }
-            Rule::power => lhs.pow(rhs as u32),
+            Rule::power => lhs.wrapping_pow(rhs as u32),
             _ => unreachable!(),
         })
         .parse(expression)
